@@ -137,7 +137,7 @@ def fileMover (s : RealState) (cwd : APath) (src dst : PurePath) (override : Boo
 /-- `os.path.abspath`: purely lexical normalisation -/
 def lexNorm : APath → List Name → APath
   | cur, [] => cur
-  | cur, c :: rest => if c = dotdot then lexNorm cur.dropLast rest else lexNorm (cur ++ [c]) rest
+  | cur, c :: rest => if c = dotdot then lexNorm (upOne cur) rest else lexNorm (cur ++ [c]) rest
 
 def absKey (cwd : APath) (p : PurePath) : APath := lexNorm (if p.abs then [] else cwd) p.parts
 
